@@ -214,8 +214,16 @@ func VerifC15SnapshotIsolated() {
 		oldMst = m.ID
 	}
 	verifrt.Havoc(data, "after") // the live catalogue moves on, in place
+	// the partition view is a map of slices of plain structs, which Havoc leaves alone: update it in place
+	// the way UpdatePtVersion / updatePtViewStatus do
+	oldPtOwner := data.PtView["db"][0].Owner.NodeID
+	for i := range data.PtView["db"] {
+		data.PtView["db"][i].Ver = verifrt.Uint64("after.ptVer")
+		data.PtView["db"][i].Status = PtStatus(verifrt.Uint32("after.ptStatus"))
+		data.PtView["db"][i].Owner.NodeID = verifrt.Uint64("after.ptOwner")
+	}
 	crp := c.Databases["db"].RetentionPolicies["rp"]
-	verifrt.Assert(c.PtView["db"][0].Ver == oldVer && c.PtView["db"][0].Status == oldStatus, "the snapshot shares its partition view with the live catalogue")
+	verifrt.Assert(c.PtView["db"][0].Ver == oldVer && c.PtView["db"][0].Status == oldStatus && c.PtView["db"][0].Owner.NodeID == oldPtOwner, "the snapshot shares its partition view with the live catalogue")
 	verifrt.Assert(c.DataNodes[0].ID == oldNodeID, "the snapshot shares its node list with the live catalogue")
 	verifrt.Assert(crp.ShardGroups[0].Shards[0].ID == oldShard && crp.ShardGroups[0].Shards[0].Owners[0] == oldOwner, "the snapshot shares its shards with the live catalogue")
 	verifrt.Assert(crp.IndexGroups[0].Indexes[0].ID == oldIndex, "the snapshot shares its index groups with the live catalogue")
